@@ -135,8 +135,9 @@ def main():
     chk.run_contracts("contracts.c20", names=["check_vname"], fallback={"*": vn})
     for f in vn():
         chk.report_failure(f)
-    driver.run_family(
-        chk, "expression-trees-both-paths", families(chk.tier, chk.seed), dispatch, site="C05/expressions",
+    _cases = families(chk.tier, chk.seed)
+    _results = driver.run_family(
+        chk, "expression-trees-both-paths", _cases, dispatch, site="C05/expressions",
         rule="seeded random expression trees (depth <= 4 quick / 6 thorough) over + - * / ** and ^, unary minus, nested calls of sin "
              "cos tanh exp sigmoid absv arctan sinh cosh maxi mini, pi, literals, over identifier sets whose names are prefixes / "
              "suffixes of one another or look generated (r/rr, r_in/r_in0, x_v1, weight, m_in2, tau/taux); each tree rendered in "
@@ -145,6 +146,8 @@ def main():
              "in one process (random batches; pairs of general powers whose operands are compound and of different kinds with the longer "
              "one on opposite sides); value == direct evaluation of the tree with NumPy float64; distinct = (tree, style, path)",
         sample_of=lambda c: {k: v for k, v in c.items() if k not in ("features",)})
+    driver.run_sequences(chk, "expression-trees-both-paths-in-sequence", _cases, _results, dispatch, site="C05/expressions",
+                         limit=20 if chk.tier == "quick" else 120, seed=chk.seed)
     rc = chk.finish(
         explanation="Deductive core: check_vname raises exactly on the reserved names (sympy constants / singletons / function classes, "
                     "PyRates-internal slots) and on names containing a reserved part, for every string. Bounded: both evaluation paths "
